@@ -131,11 +131,20 @@ def run_verus(unit_name, tier, seed):
         prim = [s for s in spans if s.get("is_primary")] or spans
         gl = prim[0]["line_start"] if prim else 0
         info = meta["linemap"][gl - 1] if 0 < gl <= len(meta["linemap"]) else {"kind": "?"}
-        # owning extracted item: the one whose generated line range contains gl
+        # owning extracted item: an item whose generated line range contains one of the diagnostic's spans;
+        # items with a body are preferred (a failed trait-level contract clause is reported with a secondary
+        # span inside the implementing function)
         item = None
-        for it in meta["extracted"]:
-            if it["gen_lines"][0] <= gl <= it["gen_lines"][1]:
-                item = it["idx"]
+        cand = []
+        for sp in ([prim[0]] if prim else []) + [x for x in spans if not x.get("is_primary")]:
+            for it in meta["extracted"]:
+                if it["gen_lines"][0] <= sp["line_start"] <= it["gen_lines"][1]:
+                    cand.append(it)
+        with_body = [it for it in cand if it.get("has_body", True)]
+        if with_body:
+            item = with_body[0]["idx"]
+        elif cand:
+            item = cand[0]["idx"]
         is_verif = any(msg.startswith(m) or m in msg for m in VERIF_MSG)
         is_rlimit = "rlimit" in msg.lower() or "resource limit" in msg.lower()
         diags.append({
